@@ -966,7 +966,9 @@ def cases(rng, tier):
         r = rng.random()
         if r < 0.34:
             yield _struct_case(rng, gen_spec(rng, "valid"))
-        elif r < 0.40:
+        elif r < 0.35:
+            yield _struct_case(rng, gen_spec(rng, "valid"))
+        elif r < 0.385:
             yield gen_api_case(rng)
         elif r < 0.56:
             yield _struct_case(rng, weirdify(rng, gen_spec(rng, "valid")), "struct-strings")
@@ -1618,10 +1620,13 @@ def _oracle_api(case):
                 for h in (f, _reread(f)):
                     v += _pref(_compare(sa, A, pdbx.get_structure(h, data_block="mine", **_read_kw(sa)), fmt, sa["stack"], "blk"), "data_block-explicit")
                     v += _pref(_compare(sb, B, pdbx.get_structure(h, data_block="other", **_read_kw(sb)), fmt, sb["stack"], "blk"), "data_block-other")
-                    v += _pref(_compare(sb, B, pdbx.get_structure(h, **_read_kw(sb)), fmt, sb["stack"], "blk"), "data_block-default-first")
-                    if pdbx.get_model_count(h, data_block="mine") != mA or pdbx.get_model_count(h) != len(sb["coords"]):
+                    # (with several blocks and no data_block the library refuses: ValueError; not part of the property)
+                    if pdbx.get_model_count(h, data_block="mine") != mA or pdbx.get_model_count(h, data_block="other") != len(sb["coords"]):
                         v.append(("C04/api/data_block/get_model_count", f"{fmt}: model counts of the two blocks mixed up"))
                     v += _pref(_compare(sa, A, pdbx.get_structure(h["mine"], **_read_kw(sa)), fmt, sa["stack"], "blk"), "block-object-read")
+                one = File()
+                put(one, A, sa, data_block="mine")      # a single block with a non-default name is the default block
+                v += _pref(_compare(sa, A, pdbx.get_structure(_reread(one), **_read_kw(sa)), fmt, sa["stack"], "blk"), "data_block-default")
                 blk = File.subcomponent_class()()
                 put(blk, A, sa)
                 v += _pref(_compare(sa, A, pdbx.get_structure(blk, **_read_kw(sa)), fmt, sa["stack"], "blk"), "block-object-write")
